@@ -33,6 +33,7 @@ Section AlgoFacts.
       intros t0 p0 t0' c0 Hn0 Hb. destruct (_ && _); [apply Hrnd|apply Hclimb]; assumption.
     - eapply (random_iteration_ok sp cons); eauto.
     - apply Hrnd. assumption.
+    - eapply (random_iteration_ok sp cons); eauto.
   Qed.
 
   (* C01 + C02 + C08 for one step *)
@@ -62,6 +63,7 @@ Section AlgoFacts.
         destruct (xreal_of_draw d); cbn in H; [|discriminate]. inversion H; subst. split; [assumption|]. cbn.
         inversion Hn as [|? ? _ Hn1]; subst. inversion Hn1; assumption.
       + destruct (base_evaluate_tracked (h_trk st) sc); cbn in H; [|discriminate]. inversion H; subst. split; assumption.
+      + destruct (spiral_evaluate (h_trk st) sc); cbn in H; [|discriminate]. inversion H; subst. split; assumption.
     - (* finish *) intros st st' Hi H. inversion H; subst. assumption.
   Qed.
 
@@ -133,11 +135,11 @@ Proof.
 Qed.
 
 Lemma track_grounded body k H p s k' :
-  (forall k0 k1, t_pos_new k0 = Some p -> In (p, s) (H ++ [(p, s)]) -> grounded k0 (H ++ [(p, s)]) -> body k0 s = Ok k1 -> grounded k1 (H ++ [(p, s)])) ->
+  (forall k0 k1, t_pos_new k0 = Some p -> t_score_new k0 = s -> In (p, s) (H ++ [(p, s)]) -> grounded k0 (H ++ [(p, s)]) -> body k0 s = Ok k1 -> grounded k1 (H ++ [(p, s)])) ->
   t_pos_new k = Some p -> grounded k H -> track_new_score body k s = Ok k' -> grounded k' (H ++ [(p, s)]).
 Proof.
   intros Hb Hp G Ht. unfold track_new_score in Ht.
-  destruct (grounded_set_score k H p s Hp G) as (G1 & P1 & _).
+  destruct (grounded_set_score k H p s Hp G) as (G1 & P1 & S1).
   destruct (body (set_score_new k s) s) as [k1|] eqn:E; cbn in Ht; [|discriminate]. inversion Ht; subst.
   assert (G2 : grounded k1 (H ++ [(p, s)])) by (eapply Hb; eauto; apply in_or_app; right; left; reflexivity).
   destruct G2. constructor; assumption.
@@ -159,7 +161,7 @@ Section Grounded.
       destruct (evaluate_init (track_new_pos (h_trk st) p) sc) as [k'|] eqn:E; cbn [bind] in He; [|discriminate].
       assert (Ht2 : h_trk st2 = k') by (inversion He; reflexivity). unfold algo_grounded. rewrite Ht2.
       unfold evaluate_init in E. eapply (track_grounded evaluate_init_body (track_new_pos (h_trk st) p) H p sc k'); [|reflexivity| |exact E].
-      + intros k0 k1 Hp Hin G0 Hb. unfold evaluate_init_body in Hb. inversion Hb; subst. clear Hb. destruct G0 as [A B C].
+      + intros k0 k1 Hp _ Hin G0 Hb. unfold evaluate_init_body in Hb. inversion Hb; subst. clear Hb. destruct G0 as [A B C].
         destruct (t_pos_best k0) eqn:Eb; destruct (t_pos_cur _) eqn:Ec; cbn in *; constructor; cbn; auto;
           try rewrite Hp; cbn; auto; try (rewrite Ec in *; auto); try (rewrite Eb in *; auto).
       + destruct G as [A B C]. constructor; assumption.
@@ -174,7 +176,7 @@ Section Grounded.
       assert (Gk : grounded k H) by (destruct G as [A B C]; constructor; assumption).
       assert (Hhc : forall k', hc_evaluate (a_nn c) k sc = Ok k' -> grounded k' (H ++ [(p, sc)])).
       { intros k' E. unfold hc_evaluate in E. eapply (track_grounded (hc_evaluate_body (a_nn c))); [|exact Hp|exact Gk|exact E].
-        intros k0 k1 Hp0 Hin G0 Hb. eapply hc_body_grounded; eauto. }
+        intros k0 k1 Hp0 _ Hin G0 Hb. eapply hc_body_grounded; eauto. }
       assert (Htr : forall kt, transition_body tp (set_score_new k sc) sc = Ok kt ->
                 grounded ((fst kt) <| t_nth_trial ::= Z.succ |>) (H ++ [(p, sc)])).
       { intros kt E. destruct (grounded_set_score k H p sc Hp Gk) as (G1 & P1 & S1).
@@ -198,7 +200,12 @@ Section Grounded.
       + destruct (hc_evaluate (a_nn c) k sc) as [t|] eqn:E; cbn [bind] in He; [|discriminate]. replace (h_trk st2) with t by (inversion He; reflexivity). apply Hhc. reflexivity.
       + destruct (base_evaluate_tracked k sc) as [k'|] eqn:E; cbn [bind] in He; [|discriminate]. replace (h_trk st2) with k' by (inversion He; reflexivity).
         unfold base_evaluate_tracked in E. eapply (track_grounded (fun t s => Ok (base_evaluate t s))); [|exact Hp|exact Gk|exact E].
-        intros k0 k1 Hp0 Hin G0 Hb. inversion Hb; subst. eapply grounded_base; eauto.
+        intros k0 k1 Hp0 _ Hin G0 Hb. inversion Hb; subst. eapply grounded_base; eauto.
+      + destruct (spiral_evaluate k sc) as [k'|] eqn:E; cbn [bind] in He; [|discriminate]. replace (h_trk st2) with k' by (inversion He; reflexivity).
+        unfold spiral_evaluate in E. eapply (track_grounded (fun t s => Ok (evaluate_current2best (new2current t)))); [|exact Hp|exact Gk|exact E].
+        intros k0 k1 Hp0 Hs0 Hin G0 Hb. inversion Hb; subst k1. clear Hb. destruct G0 as [A B C].
+        unfold evaluate_current2best, new2current. cbn.
+        destruct (sgt (t_score_new k0) (t_score_best k0)); constructor; cbn; auto; rewrite Hp0, Hs0; cbn; assumption.
     - intros st st' H G Hf. inversion Hf; subst. assumption.
   Qed.
 End Grounded.
